@@ -34,7 +34,10 @@ RULE = ("cases: one-field recipes calling random_number / random_choice / date_b
 TRUSTED = ["harness/oracle_random.py: random.Random._randbelow patched to inject the integer draw",
            "harness/c11.py: random.Random.random patched to return num/1024 (Faker's uniform and random.choices)",
            "harness/c11.py: bounds rendered to YAML / parsed back from JSON output with Python's datetime (day numbers, microseconds)",
-           "process time zone forced to UTC (date.today(), Faker's local-zone conversions)"]
+           "process time zone forced to UTC (date.today(), Faker's local-zone conversions)",
+           "harness/c11.py frozen_clock: for datetime cases with now / relative bounds template_funcs' datetime.now() is frozen at one "
+           "reading, which is passed to the model as the clock (both per-bound readings equal); if it cannot be frozen the model "
+           "comparison is skipped and the oracle uses the interval of readings [t0, t1]"]
 ASSUMPTIONS = ["CPython random.randrange / random.choice / random.choices (bisect_right) as transcribed in RandFuncs.v",
                "Faker date_between / date_time_between as transcribed (uniform(a,b) = a+(b-a)*random(), year = 365.24 d, month = 30.42 d); "
                "the theorems use exact rational arithmetic where Faker uses floats (the correspondence check injects only dyadic draws, for which both agree)",
@@ -64,11 +67,15 @@ def rel_text(parts):
     return "".join(f"{'+' if v >= 0 else '-'}{abs(v)}{u}" for u, v in parts)
 
 
-def rel_days(parts):
+def rel_seconds(parts):
+    """Faker: years = 365.24 days, months = 30.42 days"""
     p = dict(parts)
-    tot = (864 * (36524 * p.get("y", 0) + 3042 * p.get("M", 0)) + 86400 * (7 * p.get("w", 0) + p.get("d", 0))
-           + 3600 * p.get("h", 0) + 60 * p.get("m", 0) + p.get("s", 0))
-    return tot // 86400
+    return (864 * (36524 * p.get("y", 0) + 3042 * p.get("M", 0)) + 86400 * (7 * p.get("w", 0) + p.get("d", 0))
+            + 3600 * p.get("h", 0) + 60 * p.get("m", 0) + p.get("s", 0))
+
+
+def rel_days(parts):
+    return rel_seconds(parts) // 86400
 
 
 def off_text(off_min):
@@ -233,6 +240,32 @@ def injected_random(chooser, log):
         _random.Random.random = orig
 
 
+@contextlib.contextmanager
+def frozen_clock(tf, reading):
+    """Make template_funcs read `reading` (an aware UTC datetime) from datetime.now(): the module-global
+    name `datetime` is replaced by a subclass (isinstance checks keep accepting plain datetimes).
+    Yields True if the clock could be frozen; False (nothing changed) if the module has no such global."""
+    real = getattr(tf, "datetime", None)
+    if real is not datetime:
+        yield False
+        return
+
+    class _Meta(type):
+        def __instancecheck__(cls, inst):
+            return isinstance(inst, datetime)
+
+    class FrozenDatetime(datetime, metaclass=_Meta):
+        @classmethod
+        def now(cls, tz=None):
+            return reading.astimezone(tz) if tz is not None else reading.astimezone().replace(tzinfo=None)
+
+    tf.datetime = FrozenDatetime
+    try:
+        yield True
+    finally:
+        tf.datetime = real
+
+
 def canon_value(kind, v):
     if v is None:
         return ["null"]
@@ -274,7 +307,7 @@ def run_impl(case):
     import snowfakery.template_funcs as tf
     dr = case["draws"]
     mode, raw = dr["mode"], dr.get("raw", [])
-    uses_now = any(case.get(b, {}).get("t") == "now" for b in ("start", "end")) if case["kind"] in ("date", "datetime") else False
+    uses_now = case["kind"] == "datetime" and any(case[b].get("t") in ("now", "rel") for b in ("start", "end"))
     for fn in (getattr(tf, "parse_datetimespec", None), getattr(tf, "parse_date", None)):
         if hasattr(fn, "cache_clear"):
             fn.cache_clear()          # "now"/"today" are cached per process by lru_cache
@@ -283,6 +316,8 @@ def run_impl(case):
     today0 = date.today().toordinal() - EPOCH_ORD
     t0 = _now_us()
     rlog = []
+    reading = datetime(1970, 1, 1, tzinfo=timezone.utc) + timedelta(microseconds=t0)
+    freezer = frozen_clock(tf, reading) if uses_now else contextlib.nullcontext(False)
 
     def below(n, i):
         if mode == "ends":
@@ -296,24 +331,26 @@ def run_impl(case):
             return 0 if i % 2 == 0 else DEN - 1
         return raw[i % len(raw)] % DEN
 
+    frozen = False
     try:
-        if mode == "free":
-            _random.seed(dr.get("seed", 0))
-            try:
-                from faker import Faker
-                Faker.seed(dr.get("seed", 0))
-            except Exception:
-                pass
-            generate_data(io.StringIO(recipe(case)), output_file=out, output_format="json")
-            obs["below"], obs["rand"], obs["widths"] = [], [], []
-        else:
-            with injected_randbelow(chooser=below) as rec, injected_random(rnd, rlog):
-                try:
-                    generate_data(io.StringIO(recipe(case)), output_file=out, output_format="json")
-                finally:
-                    obs["below"], obs["widths"], obs["rand"] = list(rec.values), list(rec.widths), list(rlog)
-        rows = json.loads(out.getvalue())
-        obs["ok"] = [canon_value(case["kind"], r.get("d")) for r in rows if r.get("_table") == "A"]
+      with freezer as frozen:
+          if mode == "free":
+              _random.seed(dr.get("seed", 0))
+              try:
+                  from faker import Faker
+                  Faker.seed(dr.get("seed", 0))
+              except Exception:
+                  pass
+              generate_data(io.StringIO(recipe(case)), output_file=out, output_format="json")
+              obs["below"], obs["rand"], obs["widths"] = [], [], []
+          else:
+              with injected_randbelow(chooser=below) as rec, injected_random(rnd, rlog):
+                  try:
+                      generate_data(io.StringIO(recipe(case)), output_file=out, output_format="json")
+                  finally:
+                      obs["below"], obs["widths"], obs["rand"] = list(rec.values), list(rec.widths), list(rlog)
+          rows = json.loads(out.getvalue())
+          obs["ok"] = [canon_value(case["kind"], r.get("d")) for r in rows if r.get("_table") == "A"]
     except BaseException as e:
         if isinstance(e, (KeyboardInterrupt, SystemExit, C._CaseTimeout)):
             raise
@@ -325,18 +362,9 @@ def run_impl(case):
     obs["today"] = today0
     obs["t0"], obs["t1"] = t0, t1
     obs["clock_stable"] = (date.today().toordinal() - EPOCH_ORD) == today0
-    obs["now_us"] = None
-    if uses_now and case["kind"] == "datetime":
-        # the value "now" was resolved to: still in parse_datetimespec's cache if it was produced
-        # during this run; otherwise unknown (model comparison skipped)
-        try:
-            nv = tf.parse_datetimespec("now")
-            d = nv - datetime(1970, 1, 1, tzinfo=timezone.utc)
-            nv_us = (d.days * 86400 + d.seconds) * US + d.microseconds
-            if t0 <= nv_us <= t1:
-                obs["now_us"] = nv_us
-        except Exception:
-            pass
+    # the clock reading `now` / relative bounds were resolved against: known only if the clock was frozen
+    # (otherwise somewhere in [t0, t1]; the model comparison is then skipped)
+    obs["now_us"] = t0 if (uses_now and frozen) else None
     return obs
 
 
@@ -369,7 +397,7 @@ def fn_coq(case, obs):
         return f"(FDate {clock} {spec_coq(case['start'])} {spec_coq(case['end'])})"
     tz = case.get("tz")
     tzs = 0 if tz is None else (None if tz == "false" else (tz[0] * 60 + tz[1]) * 60)
-    return f"(FDateTime {clock} {spec_coq(case['start'])} {spec_coq(case['end'])} {C.copt(tzs, C.cz)})"
+    return f"(FDateTime {clock} {clock} {spec_coq(case['start'])} {spec_coq(case['end'])} {C.copt(tzs, C.cz)})"
 
 
 def value_coq(v):
@@ -389,7 +417,7 @@ def _uses_clock(case):
 def coq_case(case, obs):
     if _uses_clock(case) and not obs.get("clock_stable", True):
         return None                      # midnight passed during the run
-    if case["kind"] == "datetime" and any(case[b]["t"] == "now" for b in ("start", "end")) \
+    if case["kind"] == "datetime" and any(case[b]["t"] in ("now", "rel") for b in ("start", "end")) \
             and obs.get("now_us") is None:
         return None                      # the value `now` resolved to could not be observed
     if "wrows" in case:
@@ -441,8 +469,10 @@ def dt_bounds(case, obs):
     out = []
     for b in ("start", "end"):
         sp = case[b]
-        if sp["t"] == "now":
-            out.append((obs["t0"], obs["t1"], obs["t0"], obs["t1"], False, True))
+        if sp["t"] in ("now", "rel"):
+            off = rel_seconds(sp["parts"]) * US if sp["t"] == "rel" else 0
+            lo, hi = (obs["now_us"], obs["now_us"]) if obs.get("now_us") is not None else (obs["t0"], obs["t1"])
+            out.append((lo + off, hi + off, lo + off, hi + off, False, True))
         elif sp["t"] == "today":
             v = obs["today"] * DAYUS
             out.append((v, v, v, v, False, False))
@@ -944,10 +974,35 @@ def gen_datetime(rng, tier):
             s = ab(1999, 12, 31, H=11, M=59, dateonly=rng.random() < 0.3)
         elif r < 0.26:
             s, e = {"t": "today"}, {"t": "now"}
-        elif r < 0.30:
-            which = rng.random() < 0.5
-            relspec = gen_rel(rng, "ywd")
-            s, e = (relspec, e) if which else (s, relspec)
+        elif r < 0.46:
+            # relative bounds (valid since bfa3786): both relative, relative vs absolute / today / now,
+            # single and multi unit, both signs, right and wrong order
+            def rel(lo, hi):
+                u = rng.choice(["d", "y", "w", "h", "M", "m", "s"])
+                scale = {"y": 31556736, "M": 2628288, "w": 604800, "d": 86400, "h": 3600, "m": 60, "s": 1}[u]
+                a, b = sorted((lo // scale, hi // scale))
+                parts = [[u, max(-50 if u in "yM" else -10 ** 6, min(50 if u in "yM" else 10 ** 6, rng.randint(a, b)))]]
+                if rng.random() < 0.4:
+                    u2 = rng.choice([x for x in "dhms" if x != u])
+                    parts.append([u2, rng.randint(-50, 50)])
+                    parts.sort(key=lambda p: "yMwdhms".index(p[0]))
+                return {"t": "rel", "parts": parts}
+            day = 86400
+            rr = rng.random()
+            if rr < 0.35:
+                s, e = rel(-400 * day, 0), rel(0, 400 * day)
+            elif rr < 0.5:
+                s, e = rel(-40 * day, 40 * day), rel(-40 * day, 40 * day)      # either order
+            elif rr < 0.6:
+                s, e = rel(0, 40 * day), rel(-40 * day, -1)                    # wrong order
+            elif rr < 0.7:
+                s, e = rng.choice([{"t": "today"}, {"t": "now"}]), rel(day, 800 * day)
+            elif rr < 0.8:
+                s, e = rel(-800 * day, -day), rng.choice([{"t": "today"}, {"t": "now"}])
+            elif rr < 0.9:
+                s, e = ab(1999, 12, 31, H=11, M=59, style=rng.choice(styles)), rel(-800 * day, 800 * day)
+            else:
+                s, e = rel(-800 * day, 800 * day), ab(2100 + rng.randint(0, 100), 1, 1, dateonly=rng.random() < 0.5, style="yaml")
         tz = rng.choice([None, None, None, None, None, None, [rng.randint(-11, 12), rng.choice([0, 0, 30, 45])],
                          [rng.randint(-11, 12), rng.choice([0, 0, 30, 45])], "false"])
         base = {"kind": "datetime", "start": s, "end": e, "tz": tz}
@@ -956,6 +1011,8 @@ def gen_datetime(rng, tier):
             out.append(dict(base, draws={"mode": "raw", "rows": 4, "raw": [rng.randint(0, DEN - 1) for _ in range(4)]}))
         if rng.random() < 0.4:
             out.append(dict(base, draws=draws(rng, "free", rows=40)))
+    for sp, ep in ([["d", -30]], [["y", 1]]), ([["y", -1], ["d", 2]], [["w", 2], ["h", 3]]), ([["M", 1]], [["M", 1]]), ([["y", 1]], [["d", -30]]):
+        out.append({"kind": "datetime", "start": {"t": "rel", "parts": sp}, "end": {"t": "rel", "parts": ep}, "tz": None, "draws": draws(rng, "ends")})
     out.append({"kind": "datetime", "start": {"t": "bad", "text": "2040-13-13T00:00:00"}, "end": ab(2041, 1, 1), "tz": None, "draws": draws(rng, "ends")})
     return out
 
